@@ -572,6 +572,9 @@ func classify(c *Case, o *vkit.Outcome, maxRun, timeoutCuts, joinedRuns, limited
 	if res.timeouts > 0 {
 		o.Class("time-out-event-delivered")
 	}
+	if res.tapDiscards > 0 {
+		o.Class("emitted-events-discarded-by-a-later-action")
+	}
 	if c.PassBefore+c.PassAfter > 0 {
 		o.Class("with-pass-through-actions")
 	}
@@ -713,6 +716,10 @@ func judgeK8s(c *Case, res *execResult, o *vkit.Outcome) {
 				}
 				if r.timedOut {
 					o.Failf(P, pl+":partial-run-lost-on-time-out", "%s: chunks %d..%d of a line (first %q) were followed by a silence longer than event_timeout+%dms; the property requires the partial run to be flushed, it was dropped", where, r.lo, r.hi, ch[r.lo].log, timeoutSlackMs)
+					// (a known finding: go on judging what follows the time-out)
+					if vkit.IsKnown(P, pl+":partial-run-lost-on-time-out") {
+						continue
+					}
 				} else {
 					o.Failf(P, pl+":chunk-lost", "%s: chunk %d %q reached no output event (max_event_size %d, bytes of its whole line %d)", where, i, ch[i].log, c.MaxEventSize, r.sumRaw)
 				}
